@@ -40,3 +40,12 @@ Proof. exact (replay_outputs seed op vstate out v0 handle is_signing). Qed.
 End C12.
 Print Assumptions C12_replay_restores.
 Print Assumptions C12_continue_after_restart.
+
+(* "two machines created from the same mnemonic derive identical long-term keys": the key pair is a
+   function of the seed only if the set_seed command of cmd/airgapped DERIVES it from the seed it
+   has just set (GenerateKeys) and does not reload a pair the database already holds (InitKeys /
+   LoadKeysFromDB) - regenerated from the source of the command on every run *)
+Require Gen.Skeletons Board.File.
+Theorem C12_set_seed_derives_the_keys :
+  Gen.Skeletons.set_seed_steps = [Board.File.KSetSeed; Board.File.KGenerate].
+Proof. reflexivity. Qed.
